@@ -21,7 +21,8 @@ import elementpath.aliases as ta
 
 from elementpath.protocols import XsdAttributeProtocol
 from elementpath.exceptions import ElementPathError
-from elementpath.namespaces import XSD_NAMESPACE, XSD_NOTATION, XSD_ANY_ATOMIC_TYPE, XSD_UNTYPED
+from elementpath.namespaces import XSD_NAMESPACE, XSD_NOTATION, XSD_ANY_ATOMIC_TYPE, \
+    XSD_ANY_TYPE, XSD_UNTYPED
 from elementpath.helpers import node_position, get_double
 from elementpath.namespaces import XSD_ERROR, get_namespace, get_expanded_name
 from elementpath.datatypes import AbstractDateTime, UntypedAtomic, QName, AnyURI, \
@@ -770,8 +771,17 @@ def select__element_kind_test(self: XPathFunction, context: ta.ContextType = Non
                         yield item
                     elif self[0].symbol != '*':
                         yield item
-                elif is_instance(item.typed_value, type_annotation, self.parser):
-                    yield item
+                elif type_annotation == XSD_ANY_TYPE:
+                    yield item  # every type is derived from xs:anyType
+                else:
+                    if self.parser.schema is not None:
+                        xsd_type = self.parser.schema.get_type(type_annotation)
+                        if xsd_type is not None and not xsd_type.is_simple():
+                            continue  # a complex type that is not the type of the element
+                    if type_annotation == XSD_UNTYPED:
+                        continue
+                    if is_instance(item.typed_value, type_annotation, self.parser):
+                        yield item
 
 
 @method('element')
